@@ -1,6 +1,7 @@
 (* Props/C04.v — C04: reverse iteration returns exactly the forward result, newest first.
    Statements only (Proofs/Reverse.v, Proofs/Negate.v). *)
-From CG Require Import Proofs.Defs Proofs.Compl Proofs.Merge Proofs.Negate Proofs.Reverse.
+From CG Require Import Proofs.Defs Proofs.Compl Proofs.Merge Proofs.Negate Proofs.Reverse
+     Proofs.Assembly Proofs.Reverse2.
 
 (* writing the two bounds in either order gives the same slice, for every expression *)
 Theorem C04_bounds_swap : forall env e x y rv,
@@ -61,3 +62,34 @@ Theorem C04_nested_refuted :
   slice [] e (Some 0) (Some 20) true = [mkI (Some 4) (Some 20) Plain].
 Proof. exact Reverse.C04_nested_refuted. Qed.
 Print Assumptions C04_nested_refuted.
+
+(* ---- whole expression trees ----
+   [good'] (Proofs/Reverse2.v; decidable sufficient condition [sgood']): the forward domain [good]
+   plus "every stream handed to a negated sweep has monotone ends" — the boundary of KF-D3.
+   For every window: the reverse slice is the same multiset as the forward slice, newest first. *)
+Theorem C04_rev_eq_fwd : forall env e a b, good' env e -> wf_win' a b ->
+  Permutation (slice env e a b true) (slice env e a b false) /\
+  sorted_by Z.geb (slice env e a b true) = true.
+Proof. exact Reverse2.C04_rev_eq_fwd. Qed.
+Print Assumptions C04_rev_eq_fwd.
+
+Theorem C04_domain_decidable : forall env e a b, sgood' e = true -> wf_win' a b ->
+  Permutation (slice env e a b true) (slice env e a b false) /\
+  sorted_by Z.geb (slice env e a b true) = true.
+Proof. exact C04_syntactic. Qed.
+Print Assumptions C04_domain_decidable.
+
+(* k-way intersection run in negated time: same multiset, newest first; exactly the reversed
+   forward result for a single emitter *)
+Theorem C04_intersection_reverse : forall masks ss,
+  (2 <= length ss)%nat -> Forall (Forall wf_ivl) ss -> Forall disjoint_sorted ss ->
+  let r := neg_stream (inter_sweep (map (fun s => neg_stream (rev s)) ss) (emit_sel masks)) in
+  Permutation r (inter_sweep ss (emit_sel masks)) /\ pairwiseP same_or_after r /\ sorted_by Z.geb r = true.
+Proof. exact inter_sweep_reverse. Qed.
+Print Assumptions C04_intersection_reverse.
+
+(* where the forward slice is non-overlapping the reverse slice IS its reverse, hence last-n *)
+Theorem C04_rev_is_rev : forall env e a b, good' env e -> wf_win' a b ->
+  disjoint_sorted (slice env e a b false) -> slice env e a b true = rev (slice env e a b false).
+Proof. exact Reverse2.C04_rev_is_rev. Qed.
+Print Assumptions C04_rev_is_rev.
